@@ -57,6 +57,7 @@ func runC18(r *Run) {
 	c18CancelWithUnaryInFlight(r)
 	c18BlockedWriteThenCancel(r)
 	c18ConcurrentCancel(r)
+	c18LargeRepliesSlowShared(r)
 	c18ReadTimeout(r)
 }
 
